@@ -60,6 +60,46 @@ CHECKS = {
     technique="enumeration of route assignments x orderings x declaration styles x incremental subsets for fixed process sets; differential oracle against the all-Event variant, plus a grown-model leg with interleaved evaluations",
     text="7 process sets; every assignment of an API route to each process, every ordering, every subset added with add_*, every state/parameter declaration style, the explicit-ODE form, and models grown one process at a time with evaluations in between: symbolic ODE identical, numeric ode/jacobian/grad/eventRateVector/vMat identical (modulo the known event permutation).",
     note="Legacy transition=/birth_death= routes only with magnitude 1 (they cannot express another)."),
+ "C02": dict(
+    category="exploration", design_ref="DESIGN.md §5 C02",
+    technique="exhaustive enumeration of a finite configuration product (model x grid x entry point x integrator x flags), every combination executed and compared with a closed form or a reference integration of the sympy right-hand side",
+    text="Catalogue and generated models x t0 in {0, 0.5} x six grid shapes (uniform, non-uniform, scalar, one element, integer array, integer list) x {integrate, solve_determ, integrate2, integrateFuncJac} x methods {None, lsoda, vode, ivode, dopri5, dop853} x full_output x includeOrigin: row count and order, first row exactly x0, each row the solution at its time. Decides alignment, ordering, aliasing and shaping, which is where the defects found on the pinned tree lived.",
+    note="Trusted: scipy DOP853 at rtol 1e-12 on the sympy right-hand side, closed forms for the linear chain and the logistic model. Tolerance 1e-6(1+|x|); a case counts as non-trivial only if consecutive rows differ by 1e-3."),
+ "C06": dict(
+    category="exploration", design_ref="DESIGN.md §5 C06",
+    technique="exhaustive enumeration of loss configurations (loss class x observed-state selection in every order x spread x weights x target parameters x entry point x grid type) against independent loss formulas on a reference trajectory",
+    text="cost(theta), cost(), residual and costIV of all five loss classes equal the independently written loss of the reference trajectory at the observation times, for every ordered selection of observed states, scalar / per-state / per-observation spread and weights, every ordered target_param subset and integer-typed observation times with fractional t0; square loss at the generating parameters is 0.",
+    note="Reference trajectory = closed form or DOP853(1e-12); loss formulas written with math.lgamma/log only. quick runs every second configuration (selected by VERIF_SEED), thorough all."),
+ "C07": dict(
+    category="exploration", design_ref="DESIGN.md §5 C07",
+    technique="exhaustive enumeration of gradient configurations against the derivative of the reference cost (sympy variational system + chain rule through independent loss derivatives)",
+    text="sensitivity, gradient and sensitivityIV of all five loss classes equal the derivative of the reference cost for every ordered observed-state selection, every ordered target_param and target_state subset, weights (Square/Normal), spread forms, integrator methods and full_output, with components in the order the free variables were supplied.",
+    note="The oracle is the derivative of the reference cost, not finite differences of the library's cost. quick: every third configuration."),
+ "C13": dict(
+    category="exploration", design_ref="DESIGN.md §5 C13",
+    technique="enumeration of model shapes (d,p) in {1,2,3}x{0..3} x arrangement x evaluation points; symbolic Jacobian of the reference augmented system as oracle; integration of the augmented systems against the reference variational solution",
+    text="ode_and_sensitivity / ode_and_sensitivityIV and their Jacobians (by parameter and by state) equal the variational right-hand side [f, vec(J S + G)] / [.., vec(J S0)] and its exact symbolic Jacobian for every shape incl. one-state and p != d-1; integrating them gives dx/dtheta and dx/dx0.",
+    note="Reference J, G and the augmented Jacobian come from sympy.diff on the definition; no finite differences in the oracle."),
+ "C14": dict(
+    category="exploration", design_ref="DESIGN.md §5 C14",
+    technique="exhaustive grid enumeration of (y, yhat, spread, weights, shapes) for every loss kernel against closed-form negative log-likelihoods and their sympy derivatives",
+    text="loss, diff_loss and diff2Loss of Square, Normal, Poisson, Gamma and NegBinom equal minus the summed log-density (written independently) and its first and second derivative in the prediction, for scalar and per-observation spread, one-column and vector predictions, weights on and off.",
+    note="Real arguments on an explicit grid only; derivatives from sympy.diff evaluated by mpmath."),
+ "C18": dict(
+    category="exploration", design_ref="DESIGN.md §5 C18",
+    technique="exhaustive enumeration of fit configurations (model x generating parameters x loss class x observed states x target_param order x box shape x start lattice x bound container), each executed on the real fit and judged with a reference cost",
+    text="Every combination calls the real fit: the returned point is inside the box exactly, its reference cost does not exceed the reference cost of the start, and from the generating parameters with noise-free data the result is those parameters. Boxes differ per parameter and include bounds that decrease along the vector, boxes excluding the truth, starts on faces; target_param in non-model order.",
+    note="Reference cost = independent loss formula on DOP853 reference trajectory. One-sided/absent bounds only from the optimum (the search may otherwise leave the model's domain). quick: every sixth configuration."),
+ "C19": dict(
+    category="exploration", design_ref="DESIGN.md §5 C19",
+    technique="exhaustive grid enumeration of every implemented d/p/q/r helper x argument grid x parameter grid x log flag x seeds, against textbook formulas in mpmath",
+    text="Every implemented density, distribution, quantile and generator helper: density and CDF equal the textbook formula in R's parameterisation, p is the integral of d, q inverts p, the log form is the log of the plain form, both negative-binomial parameterisations agree, seeded generators reproduce for equal seeds and differ for different ones.",
+    note="mpmath special functions, not scipy.stats (which the helpers wrap); pnbinom/qnbinom/rnbinom are unimplemented stubs and not judged."),
+ "C20": dict(
+    category="exploration", design_ref="DESIGN.md §5 C20",
+    technique="exhaustive enumeration of curvature configurations (model x theta x ordered observed-state selection x weights x ordered target_param x method x flags) against first- and second-order variational systems derived by sympy",
+    text="jtj equals the weighted Gauss-Newton sum from reference sensitivities, is symmetric and positive semi-definite; hessian equals the second derivative of the reference weighted square-loss cost. On models whose parameters enter additively any discrepancy is a violation; on models with mixed terms a hessian that equals the reference computed without the mixed terms is exactly the recorded known finding F16 and anything else is a violation.",
+    note="The reference Hessian is itself checked against central differences of the reference gradient in every run."),
 }
 NOT_YET = "check not built yet in this round (planned in DESIGN.md §5)"
 
